@@ -150,3 +150,56 @@ PROPS["C10"] = {
     "require": {"any": {"c10.history-compared": 10000, "slab.allocs-checked": 10000, "slab.distinct-shapes": 500, "profile.far-start": 20, "profile.long-needle": 50}},
     "assumptions": ["haystacks up to 3*10^5 characters (the documented limit 2^32 is out of reach)", "memory safety beyond view extents is judged by the Miri/ASan jobs"],
 }
+
+
+MIRI_SB = "-Zmiri-disable-isolation -Zmiri-seed={seed}"
+MIRI_TB = "-Zmiri-disable-isolation -Zmiri-tree-borrows -Zmiri-permissive-provenance -Zmiri-ignore-leaks -Zmiri-seed={seed}"
+ASAN_ENV = {"ASAN_OPTIONS": "detect_leaks=1:halt_on_error=1:abort_on_error=0:detect_stack_use_after_return=0", "LSAN_OPTIONS": "report_objects=1"}
+
+
+def sort_job(name, variant, shards, cases, tl, max_len, small=False, timeout=None, **kw):
+    j = {
+        "name": name, "bin": "sort_mon", "variant": variant, "shards": shards,
+        "args": ["--seed", "{seed}", "--shard", "{shard}", "--cases", str(cases), "--time-limit", str(tl), "--max-len", str(max_len),
+                 "--small", "1" if small else "0", "--out", "{out}", "--crumb", "{out}.crumb"],
+        "timeout": timeout or (tl * 3 + 120),
+        "crash_is_violation": True,
+    }
+    j.update(kw)
+    return j
+
+
+def c18_jobs(tier):
+    q = tier != "thorough"
+    return [
+        sort_job("sort-chk", "chk", 16, 1500 if q else 60000, 30 if q else 900, 500000),
+        sort_job("sort-rel", "rel", 4, 1500 if q else 60000, 30 if q else 600, 500000),
+        sort_job("sort-asan", "asan", 4, 400 if q else 20000, 30 if q else 600, 120000, sanitizer=True, env=ASAN_ENV),
+        sort_job("sort-miri", "miri", 8 if q else 16, 2 if q else 40, 100 if q else 2400, 400 if q else 1900, small=True,
+                 sanitizer=True, miriflags=MIRI_SB, timeout=400 if q else 4000),
+    ]
+
+
+def replay_sort(rj):
+    cid = rj.get("detail", {}).get("case_id", "")
+    parts = cid.split(":")
+    if len(parts) != 3:
+        return []
+    j = sort_job("replay", "chk", 1, 1, 600, 500000)
+    j["args"] = [a.replace("{seed}", parts[0]).replace("{shard}", parts[1]) for a in j["args"]] + ["--replay-case", parts[2]]
+    return [j]
+
+
+PROPS["C18"] = {
+    "jobs": c18_jobs,
+    "replay": replay_sort,
+    "rule": ("slices of (key, unique id) through the par_quicksort facade: lengths 0..24, 19-22, 49-51, 1999-2001, 4001, up to 500000; shapes sorted/reversed/organ-pipe/saw-tooth/"
+             "all-equal/2 and 10 keys/random/median-of-3 killer/adaptive antiquicksort adversary (forces limit==0 -> heapsort); pools of 1/2/4/16 threads; strict weak and total orders; "
+             "cancellation pre-raised, raised by the comparator at its k-th call, or by a second thread; phases reached are counted through verif points; "
+             "native debug-assertion and release builds, AddressSanitizer, Miri (small slices, no pool); plus one item set through Nucleo with 1/2/4/16 threads. "
+             "distinct_nontrivial = distinct (length > 20, key prefix, cancellation, threads) tuples"),
+    "require": {"any": {"phase.heapsort": 1, "phase.break-patterns": 1, "phase.partial-insertion": 1, "phase.partition-equal": 1, "phase.cancel-observed": 1,
+                         "phase.parallel-join": 1, "c18.reported-cancelled": 10, "c18.reported-not-cancelled": 100, "c18.end-to-end-item-sets": 1}},
+    "assumptions": ["a stack overflow / abort of the monitor process while sorting is a violation (the crumb file names the case)",
+                    "Miri runs call the sort on the current thread with slices <= 2000 elements, which never reach rayon::join"],
+}
